@@ -558,7 +558,7 @@ func (g *gen) faults(f *Fn) {
 		f.Faults = append(f.Faults, o)
 	}
 	if g.pct(g.k.PFaultKind, "faultkind") {
-		f.EK = g.pick(2, "ek")
+		f.EK = g.pick(3, "ek")
 		f.PK = g.pick(6, "pk")
 	}
 }
@@ -1409,7 +1409,7 @@ func GenDeepChain(t *rapid.T, k Knobs, maxLen int) *Case {
 			f.Err = true
 			f.Faults = []int{bottom}
 			f.PK = g.pick(6, "pk")
-			f.EK = g.pick(2, "ek")
+			f.EK = g.pick(3, "ek")
 		} else if g.pct(30, "haserr") {
 			f.Err = true
 		}
